@@ -178,7 +178,8 @@ impl FsCommand {
     }
 
     fn check_can_rename(source: &Path, target: &Path) -> io::Result<()> {
-        if target.to_path_buf().exists() {
+        // `exists` follows symbolic links, so it would miss a dangling link at the target
+        if fs::symlink_metadata(target.to_path_buf()).is_ok() {
             return Err(io::Error::new(
                 ErrorKind::AlreadyExists,
                 format!(
